@@ -527,6 +527,22 @@ func buildShared(rc *Recipe, earlier []geojson.Object) (obj geojson.Object) {
 		return geojson.NewPoint(geometry.Point{X: 2, Y: 2})
 	}
 	switch rc.Kind {
+	case "Rewrap":
+		// a second wrapper around the SAME geometry-level object: the Poly/Line
+		// struct is copied by value, its rings (pointers) are shared
+		switch v := kids[0].(type) {
+		case *geojson.Polygon:
+			return geojson.NewPolygon(v.Base())
+		case *geojson.LineString:
+			return geojson.NewLineString(v.Base())
+		case *geojson.Circle:
+			if p, ok := v.Polygon().(*geojson.Polygon); ok {
+				return geojson.NewPolygon(p.Base())
+			}
+		case *geojson.Feature:
+			return geojson.NewFeature(v.Base(), "")
+		}
+		return geojson.NewFeature(kids[0], "")
 	case "Feature":
 		m := ""
 		if rc.Members != "" {
